@@ -50,6 +50,62 @@ type c09Frame struct {
 	DHCP *c09DHCP `json:"dhcp,omitempty"`
 }
 
+// c09Drill: before the scenario of a round, the application is not reading Session.C and the channel is almost full;
+// in every iteration the packet loop (stations coming back online -> Notify) and the purge (stations going
+// offline) are released together and compete for the last free slots. Notifications may be dropped then, but
+// neither sender may block.
+type c09Drill struct {
+	Iters int `json:"iters"`
+	Free  int `json:"free"` // free slots left before each iteration
+	N     int `json:"n"`    // stations per iteration (1..3)
+}
+
+func c09RunDrill(e *c08Env, d c09Drill, guard func(func()) bool) (stuck bool) {
+	var frames [][]byte
+	for i := 0; i < d.N && i < 3; i++ {
+		frames = append(frames, histFrame(histCfg{}, hOp{K: "f4", Src: mC1 + i, SHA: mC1 + i, IP: i}))
+	}
+	base := time.Now()
+	buf := make([]byte, packet.EthMaxSize)
+	for it := 0; it < d.Iters; it++ {
+		for len(e.s.C) > cap(e.s.C)-d.Free {
+			<-e.s.C
+		}
+		for len(e.s.C) < cap(e.s.C)-d.Free {
+			e.s.C <- packet.Notification{}
+		}
+		var wg sync.WaitGroup
+		gate := make(chan struct{})
+		wg.Add(2)
+		go func() {
+			defer wg.Done()
+			<-gate
+			guard(func() {
+				for _, f := range frames {
+					e.process(buf[:copy(buf, f)])
+				}
+			})
+		}()
+		go func(it int) {
+			defer wg.Done()
+			<-gate
+			guard(func() { e.s.VerifPurge(base.Add(time.Duration(it+1) * time.Hour)) })
+		}(it)
+		close(gate)
+		done := make(chan struct{})
+		go func() { wg.Wait(); close(done) }()
+		select {
+		case <-done:
+		case <-time.After(15 * time.Second):
+			return true
+		}
+	}
+	for len(e.s.C) > 0 {
+		<-e.s.C
+	}
+	return false
+}
+
 type c09DHCP struct {
 	C    int    `json:"c"`    // station (index into the world's clients)
 	Step string `json:"step"` // discover | request | renew | decline | release
@@ -117,6 +173,7 @@ type c09Case struct {
 	PurgeP    int         `json:"purge_p"`
 	CloseAt   int         `json:"close_at"` // -1: Close after everything joined; k: Close runs concurrently once k frames were processed
 	Closers   int         `json:"closers"`  // how many goroutines call the Close methods at that moment (Close is in the statement's API list)
+	Drill     *c09Drill   `json:"drill,omitempty"`
 }
 
 type c09Result struct {
@@ -130,6 +187,7 @@ type c09Result struct {
 	CallsDone   int      `json:"calls_done"`
 	ClosedEarly int      `json:"closed_early"`
 	DHCPSteps   int      `json:"dhcp_steps"` // messages of real DHCP dialogues delivered
+	Drills      int      `json:"drills"`     // rounds that began with the full-channel drill
 }
 
 var c09CallKinds = []string{"findip", "findip", "gethosts", "gethosts", "ipaddrs", "findbymac", "findmac", "printtable", "capture", "release", "iscaptured", "offer-get", "offer-set",
@@ -387,6 +445,30 @@ func c09ChildRun(c c09Case) (res c09Result) {
 				}
 			}
 			state.Unlock()
+		}
+		if c.Drill != nil {
+			if c09RunDrill(e, *c.Drill, guard) {
+				st := string(stackBuf[:runtime.Stack(stackBuf, true)])
+				var stuck []string
+				for _, g := range strings.Split(st, "\n\n") {
+					if strings.Contains(g, "github.com/irai/packet") && strings.Contains(g, "c09") {
+						if f := topLibFunc(strings.Split(g, "\n")[1:]); f != "" {
+							stuck = append(stuck, f)
+						}
+					}
+				}
+				sort.Strings(stuck)
+				mu.Lock()
+				res.Deadlock = strings.Join(stuck, " | ") + "\x00" + "with an almost full notification channel that nobody reads:\n" + st
+				out := res
+				out.Panics = append([]string(nil), res.Panics...)
+				mu.Unlock()
+				return out
+			}
+			waitNoGoroutine(5*time.Second, "packet.(*Session).purge.func")
+			mu.Lock()
+			res.Drills++
+			mu.Unlock()
 		}
 		consumerDone := make(chan struct{})
 		go func() { // the application's notification consumer
@@ -845,6 +927,9 @@ func genC09(t *rapid.T) c09Case {
 	}
 	if rapid.IntRange(0, 3).Draw(t, "closeMid") == 0 {
 		c.CloseAt = rapid.IntRange(0, len(c.Frames)-1).Draw(t, "closeAt")
+	}
+	if rapid.IntRange(0, 2).Draw(t, "drill") == 0 {
+		c.Drill = &c09Drill{Iters: rapid.SampledFrom([]int{200, 500, 1000}).Draw(t, "drillIters"), Free: rapid.SampledFrom([]int{1, 1, 1, 2, 0, 3}).Draw(t, "drillFree"), N: rapid.IntRange(1, 3).Draw(t, "drillN")}
 	}
 	return c
 }
